@@ -354,6 +354,11 @@ func (in *Interp) run(fr *frame) (Value, *iPanic) {
 				var v Value
 				v, ip = in.evalValue(fr, x)
 				if ip == nil {
+					if t, ok := v.(*sym.Term); ok && len(in.eqConst) > 0 && t.Op != sym.OConst {
+						if c, ok := in.eqConst[t.ID]; ok {
+							v = c
+						}
+					}
 					fr.regs[x] = v
 				}
 			default:
